@@ -126,3 +126,26 @@ def enc_oid(s: str) -> bytes:
             v >>= 7
         out += bytes(reversed(chunk))
     return enc(0, False, 6, bytes(out))
+
+
+def encode_tree(node) -> bytes:
+    """inverse of parse (minimal DER)"""
+    cls, cons, num, body = node
+    return enc(cls, cons, num, b"".join(encode_tree(k) for k in body) if cons else body)
+
+
+def to_trailing(blob: bytes) -> bytes:
+    """the same DPAPI-NG blob in the layout LAPS uses: the [0] encryptedContent element is taken out of the EncryptedContentInfo
+    and its octets follow the ContentInfo (done on the DER tree — nothing of dpapi_ng is involved)"""
+    cls, cons, num, content, end = read_tlv(blob, 0)
+    ci = _node(cls, cons, num, content)
+    ed = ci[3][1][3][0]                      # ContentInfo.content [0] → EnvelopedData
+    eci = ed[3][-1]                          # EncryptedContentInfo
+    kids = list(eci[3])
+    enc_content = b""
+    if kids and kids[-1][0] == 2 and kids[-1][2] == 0 and not kids[-1][1]:
+        enc_content = kids.pop()[3]
+    eci2 = (eci[0], True, eci[2], kids)
+    ed2 = (ed[0], True, ed[2], list(ed[3][:-1]) + [eci2])
+    ci2 = (ci[0], True, ci[2], [ci[3][0], (ci[3][1][0], True, ci[3][1][2], [ed2])])
+    return encode_tree(ci2) + enc_content + blob[end:]
